@@ -226,6 +226,7 @@ static void check_outcome(Spectra::LOBPCGSolver<Real>& solver, const Problem& P,
     const ld its = 1 + (ld) std::min<long>((long) n, std::max(0, maxit));
     const ld tolG = CTOL * (ld) n * EPS * kappaB * its;
     c.feat[tag + "gram_err"] = (double) gerr;
+    c.feat[tag + "coef_rows"] = (double) solver.m_evectors.rows();
     c.feat[tag + "min_gram_diag"] = (double) G.diagonal().minCoeff();
     c.feat[tag + "max_gram_diag"] = (double) G.diagonal().maxCoeff();
     if (vf::options().geti("debug", 0))
@@ -238,7 +239,7 @@ static void check_outcome(Spectra::LOBPCGSolver<Real>& solver, const Problem& P,
         if (vf::options().geti("debug", 0) > 1)
             std::cout << tag << "X:\n" << X.template cast<double>() << "\n";
     }
-    VF_CHECK(gerr <= tolG, "iterate_b_orthonormality", tag << "max|X'BX - I| = " << vf::num(gerr) << " > " << vf::num(tolG) << " (private iterate, kappa(B)=" << vf::num(kappaB) << ")");
+    VF_CHECK(gerr <= tolG, "iterate_b_orthonormality", tag << "max|X'BX - I| = " << vf::num(gerr) << " > " << vf::num(tolG) << " (private iterate, kappa(B)=" << vf::num(kappaB) << ", diag(X'BX) in [" << vf::num(G.diagonal().minCoeff()) << ", " << vf::num(G.diagonal().maxCoeff()) << "], coefficient matrix rows " << solver.m_evectors.rows() << ")");
 
     // ---- residuals() == A X - B X diag(theta) ------------------------------------------------------------------------
     MatL Rtrue = P.Al * X - BX * th.asDiagonal();
@@ -560,7 +561,8 @@ static void run_case(vf::Draw& d, vf::Case& c)
     }
 
     // ---- initial block -----------------------------------------------------------------------------------------------
-    int start = (int) d.pick("start", 6);
+    static const int START_SLOTS[10] = {0, 0, 0, 1, 1, 2, 2, 3, 4, 5};
+    int start = START_SLOTS[d.pick("start", 10)];
     MatL Xd = MatL::Zero(n, k);
     MatL Vw(n, k);
     for (Index j = 0; j < k; j++)
@@ -803,7 +805,15 @@ static void run_case(vf::Draw& d, vf::Case& c)
 }
 
 // Known-finding signatures (KNOWN_FINDINGS.txt).
+static std::string match_(const vf::Violation& v, const vf::Case& c);
 static std::string match(const vf::Violation& v, const vf::Case& c)
+{
+    std::string sig = match_(v, c);
+    if (vf::options().geti("logmatch", 0) && sig != "lobpcg_eigenvectors_coefficient_matrix")
+        std::fprintf(stderr, "MATCH %s | %s | %s\n", sig.c_str(), v.msg.c_str(), c.desc.c_str());
+    return sig;
+}
+static std::string match_(const vf::Violation& v, const vf::Case& c)
 {
     // D12: eigenvectors() returns the Ritz coefficient matrix of the last Rayleigh-Ritz step ((k + j*blocksize)-by-k, j = 0,1,2,
     // never n rows because 5k < n) instead of the n-by-k iterate. Raised only after every other assertion of the case passed.
